@@ -42,7 +42,7 @@ SOURCES = {
     'like': (None, ['mat-rho', 'rho-only', 'chain', 'everything']),
 }
 MODES = ['distinct', 'same-value-respelled', 'different-value', 'void-mix',
-         'same-value-other-class']
+         'same-value-other-class', 'leading-zero-material']
 _PER = {'quick': 3, 'thorough': 150}
 
 ZERO_CLASS = [('{}.0', '{}.00'), ('{}.5', '{}.50'), ('{}.25', '{}.2500'),
@@ -146,6 +146,11 @@ def build(case):
             cel.mat = first.mat
             cel.rho = form
         deck.tags.add('rho.other-class')
+    if mode == 'leading-zero-material':
+        # the material number of a cell written 01, 002: the same material
+        for cel in rng.sample(solid, max(1, len(solid) // 2)):
+            cel.mat = rng.choice(['0', '00']) + str(int(cel.mat))
+        deck.tags.add('mat.leading-zero')
     deck.tags.add(f'c09.{mode}')
     return deck
 
